@@ -111,8 +111,10 @@ class Project(Container):
             from_modules = [from_modules]
         if isinstance(to_modules, (DisconnectingModule, Module)):
             to_modules = [to_modules]
-        for from_module in from_modules:
-            for to_module in to_modules:
+        for from_item in from_modules:
+            for to_item in to_modules:
+                # Unwrap per pair: a ~module operand marks every pair it is part of.
+                from_module, to_module = from_item, to_item
                 disconnect = False
                 if isinstance(from_module, DisconnectingModule):
                     disconnect = True
@@ -133,7 +135,7 @@ class Project(Container):
                 out_link_slots = from_module.out_link_slots
                 if disconnect:
                     if from_mod_idx not in in_links:  # Already disconnected?
-                        return
+                        continue
                     in_link_idx = in_links.index(from_mod_idx)
                     out_link_idx = out_links.index(to_mod_idx)
                     in_links[in_link_idx] = -1
@@ -141,9 +143,9 @@ class Project(Container):
                     in_link_slots[in_link_idx] = -1
                     out_link_slots[out_link_idx] = -1
                     # [TODO] flatten to remove -1
-                    return
+                    continue
                 if from_mod_idx in in_links:  # Already connected?
-                    return
+                    continue
                 in_link_idx = len(in_links)
                 in_links.append(from_mod_idx)
                 out_link_idx = len(out_links)
